@@ -1,6 +1,7 @@
 package main
 
 import (
+	"sort"
 	"flag"
 	"fmt"
 	"os"
@@ -37,6 +38,7 @@ func cmdVerify(args []string) {
 	dump := fs.String("dump", "", "directory to keep SMT files")
 	all := fs.Bool("all", false, "run all solvers on every obligation")
 	verbose := fs.Bool("v", false, "verbose")
+	sweep := fs.String("sweep", "", "zero-annotation sweep: safety kinds to keep (e.g. index,slice,divzero) for functions without a contract; -func ALL:<pkg suffix> takes every such function of the package")
 	fs.Parse(args)
 	t0 := time.Now()
 	ctx, err := loadCtx(*repo, strings.Split(*pkgs, ","))
@@ -53,13 +55,31 @@ func cmdVerify(args []string) {
 		os.MkdirAll(dir, 0o755)
 	}
 	var units []*Unit
-	for _, key := range strings.Split(*fn, ",") {
+	keys := strings.Split(*fn, ",")
+	if strings.HasPrefix(*fn, "ALL:") {
+		suf := strings.TrimPrefix(*fn, "ALL:")
+		keys = nil
+		for k, f := range ctx.funcsByKey {
+			pp := strings.SplitN(k, "::", 2)[0]
+			if strings.HasSuffix(pp, suf) && f.Parent() == nil && f.Blocks != nil && !ctx.isGhostFile(f) && ctx.contractFor(f) == nil && f.Name() != "init" {
+				keys = append(keys, ctx.funcKey(f))
+			}
+		}
+		sort.Strings(keys)
+	}
+	for _, key := range keys {
 		f := ctx.findFunc(key)
 		if f == nil {
 			fmt.Fprintln(os.Stderr, "function not found:", key)
 			os.Exit(2)
 		}
 		con := ctx.contractFor(f)
+		if con == nil && *sweep != "" {
+			con = &Contract{Wiring: true, Abstract: true, NoFrame: true, Keep: map[string]bool{}, Pkg: ctx.pkgOf(f)}
+			for _, k := range strings.Split(*sweep, ",") {
+				con.Keep[strings.TrimSpace(k)] = true
+			}
+		}
 		u := ctx.buildVC(f, con)
 		units = append(units, u)
 		for _, e := range u.errs {
